@@ -333,14 +333,14 @@ Proof.
   - intros q Hq1 Hq2. rewrite upd_other; auto. rewrite upd_other; auto.
 Qed.
 
-Lemma write_atomically_asis_post out target tmp w f0 :
+Lemma write_atomically_before_fix_post out target tmp w f0 :
   files (w_fs w) target = Some f0 ->
-  post (write_atomically_asis out target tmp) w
+  post (write_atomically_before_fix out target tmp) w
        (fun b w' => wstate (w_fs w) target tmp out mode0600 (w_fs w') /\
                     (b = true -> files (w_fs w') target = Some {| f_data := out; f_mode := mode0600 |}))
        (fun s w' => s = Killed /\ wstate (w_fs w) target tmp out mode0600 (w_fs w')).
 Proof.
-  intro Hf0. set (fs0 := w_fs w). unfold write_atomically_asis.
+  intro Hf0. set (fs0 := w_fs w). unfold write_atomically_before_fix.
   apply post_bind, post_syscall.
   - intros _. split; auto. apply WSame, same_fs_refl.
   - intros k fs1 r1 El1 Heff. simpl in Heff. fold fs0 in Heff.
@@ -377,14 +377,14 @@ Proof.
       * intros s w2 [-> [written Ht]]. split; auto. eapply WTemp; eauto.
 Qed.
 
-Lemma write_atomically_fixed_post out target tmp w f0 :
+Lemma write_atomically_current_post out target tmp w f0 :
   files (w_fs w) target = Some f0 ->
-  post (write_atomically_fixed out target tmp) w
+  post (write_atomically out target tmp) w
        (fun b w' => wstate (w_fs w) target tmp out (f_mode f0) (w_fs w') /\
                     (b = true -> files (w_fs w') target = Some {| f_data := out; f_mode := f_mode f0 |}))
        (fun s w' => s = Killed /\ wstate (w_fs w) target tmp out (f_mode f0) (w_fs w')).
 Proof.
-  intro Hf0. set (fs0 := w_fs w). set (fm := f_mode f0). unfold write_atomically_fixed.
+  intro Hf0. set (fs0 := w_fs w). set (fm := f_mode f0). unfold write_atomically.
   assert (Wk : forall (b : bool) w', (b = false /\ wstate fs0 target tmp out fm (w_fs w')) ->
                wstate fs0 target tmp out fm (w_fs w') /\
                (b = true -> files (w_fs w') target = Some {| f_data := out; f_mode := fm |})).
@@ -444,16 +444,16 @@ Qed.
 
 (* ---------- the whole command ---------- *)
 Definition final_mode (v : variant) (f0 : file) : N :=
-  match v with AsIs => mode0600 | Fixed => f_mode f0 end.
+  match v with BeforeFix => mode0600 | Current => f_mode f0 end.
 
-Lemma write_atomically_post v out target tmp w f0 :
+Lemma write_atomically_of_post v out target tmp w f0 :
   files (w_fs w) target = Some f0 ->
-  post (write_atomically v out target tmp) w
+  post (write_atomically_of v out target tmp) w
        (fun b w' => wstate (w_fs w) target tmp out (final_mode v f0) (w_fs w') /\
                     (b = true -> files (w_fs w') target = Some {| f_data := out; f_mode := final_mode v f0 |}))
        (fun s w' => s = Killed /\ wstate (w_fs w) target tmp out (final_mode v f0) (w_fs w')).
 Proof.
-  destruct v; simpl; [apply write_atomically_asis_post | apply write_atomically_fixed_post].
+  destruct v; simpl; [apply write_atomically_before_fix_post | apply write_atomically_current_post].
 Qed.
 
 Section Formatter.
@@ -497,7 +497,7 @@ Section Formatter.
       + destruct (H3 src eq_refl) as [f0 [Hf0 ->]].
         destruct c.
         * destruct (fmtall (f_data f0)) as [out|] eqn:Ef.
-          -- eapply post_weaken; [apply (write_atomically_post v out target tmp w1 f0); now rewrite H1 | |].
+          -- eapply post_weaken; [apply (write_atomically_of_post v out target tmp w1 f0); now rewrite H1 | |].
              ++ intros b w2 [Hw Hb]. right. split; auto. exists f0, out. rewrite H1 in *. repeat split; auto.
                 intro E. inversion E; subst. auto.
              ++ intros s w2 [-> Hw]. split; auto. right. split; auto. exists f0, out. rewrite H1 in *.
@@ -602,17 +602,17 @@ Section Formatter.
       + rewrite Ht in Hf. inversion Hf; subst f. exists f0. split; auto.
   Qed.
 
-  Lemma fmt_w_mode_preserved_fixed target tmp fs sched kill f :
-    files (r_fs (run fmt1 parts join Fixed CmdWrite target tmp fs sched kill)) target = Some f ->
+  Lemma fmt_w_mode_preserved target tmp fs sched kill f :
+    files (r_fs (run fmt1 parts join Current CmdWrite target tmp fs sched kill)) target = Some f ->
     exists f0, files fs target = Some f0 /\ f_mode f = f_mode f0.
   Proof.
     intro H. apply fmt_w_mode in H. destruct H as [f0 [H0 [H|H]]]; eauto.
   Qed.
 
   (* the tree's protocol preserves the mode exactly when it already was 0600 ... *)
-  Lemma fmt_w_mode_preserved_asis_guarded target tmp fs sched kill f f0 :
+  Lemma fmt_w_mode_preserved_before_fix_guarded target tmp fs sched kill f f0 :
     files fs target = Some f0 -> f_mode f0 = mode0600 ->
-    files (r_fs (run fmt1 parts join AsIs CmdWrite target tmp fs sched kill)) target = Some f ->
+    files (r_fs (run fmt1 parts join BeforeFix CmdWrite target tmp fs sched kill)) target = Some f ->
     f_mode f = f_mode f0.
   Proof.
     intros H0 Hm H. apply fmt_w_mode in H. destruct H as [f0' [H0' [H|H]]]; rewrite H0 in H0'; inversion H0'; subst f0'; auto.
@@ -620,11 +620,11 @@ Section Formatter.
   Qed.
 
   (* ... and every successful run of it leaves the mode 0600, whatever it was *)
-  Lemma fmt_w_asis_success_mode target tmp fs sched kill :
-    let r := run fmt1 parts join AsIs CmdWrite target tmp fs sched kill in
+  Lemma fmt_w_before_fix_success_mode target tmp fs sched kill :
+    let r := run fmt1 parts join BeforeFix CmdWrite target tmp fs sched kill in
     r_status r = Exit 0 -> exists f, files (r_fs r) target = Some f /\ f_mode f = mode0600.
   Proof.
-    cbv zeta. destruct (run_post AsIs CmdWrite target tmp fs sched kill) as [b [w' [Hs [Hfs [_ Ho]]]]].
+    cbv zeta. destruct (run_post BeforeFix CmdWrite target tmp fs sched kill) as [b [w' [Hs [Hfs [_ Ho]]]]].
     rewrite Hfs, Hs. intro E. apply status_of_exit0 in E. unfold fout, w0 in Ho; cbn [w_fs] in Ho.
     destruct Ho as [[_ [_ H3]] | [_ [f0 [out [Hf0 [Hfmt [Hw Hb]]]]]]].
     - destruct (H3 E) as [? [_ []]].
@@ -709,3 +709,108 @@ Proof.
   - rewrite andb_true_r. rewrite str_eqb_eq. split; intro H; [now subst | now inversion H].
   - split; discriminate.
 Qed.
+
+(* ---------- the protocol in force removes its temp file ---------- *)
+(* after the process has EXITED (was not killed), the temp path is empty again,
+   unless the clean-up unlink itself failed *)
+Definition tmp_gone (tmp : path) (w' : world) : Prop :=
+  files (w_fs w') tmp = None \/ exists e, In (CUnlink tmp, RErr e) (w_trace w').
+
+Lemma post_any {A} (m : world -> step A) w (Q : A -> world -> Prop) (K : status -> world -> Prop) :
+  (forall a w', Q a w') -> (forall s w', K s w') -> post m w Q K.
+Proof. intros HQ HK. unfold post. destruct (m w); auto. Qed.
+
+Lemma remove_temp_gone tmp w :
+  post (remove_temp tmp) w (fun _ w' => tmp_gone tmp w') (fun _ _ => True).
+Proof.
+  unfold remove_temp. apply post_bind, post_syscall; auto.
+  intros k fs' r El Heff. simpl in Heff. destruct Heff as [[Hr ->] | [-> ->]].
+  - rewrite Hr. apply is_ok_false in Hr. destruct Hr as [e ->].
+    apply post_bind, post_syscall; auto.
+    intros k2 fs2 r2 El2 _. apply post_ret. right. exists e. simpl. auto.
+  - simpl. apply post_ret. left. cbn [w_fs]. apply upd_same.
+Qed.
+
+Lemma close_remove_temp_gone tmp w :
+  post (close_remove_temp tmp) w (fun _ w' => tmp_gone tmp w') (fun _ _ => True).
+Proof.
+  unfold close_remove_temp. apply post_bind, post_syscall; auto.
+  intros k fs' r El _. apply remove_temp_gone.
+Qed.
+
+Lemma write_atomically_clean out target tmp w :
+  post (write_atomically out target tmp) w
+       (fun _ w' => w_fs w' = w_fs w \/ (files (w_fs w) tmp = None /\ tmp_gone tmp w'))
+       (fun _ _ => True).
+Proof.
+  unfold write_atomically. apply post_bind, post_syscall; auto.
+  intros k0 fs' r0 El0 [-> Hm]. cbn [w_fs].
+  destruct r0 as [| | |m|]; try (apply post_ret; left; reflexivity).
+  destruct (Hm m eq_refl) as [f0 [Hf0 _]].
+  apply post_bind, post_syscall; auto.
+  intros k fs1 r1 El1 Heff. simpl in Heff. destruct Heff as [[Hr ->] | [-> [H0 ->]]].
+  - rewrite Hr. apply post_ret. left. reflexivity.
+  - simpl is_ok. cbv iota.
+    assert (Hne : tmp <> target) by (intro E; subst tmp; congruence).
+    assert (Hgo : forall (m0 : world -> step bool) w2,
+               post m0 w2 (fun _ w' => tmp_gone tmp w') (fun _ _ => True) ->
+               post m0 w2 (fun _ w' => w_fs w' = w_fs w \/ (files (w_fs w) tmp = None /\ tmp_gone tmp w')) (fun _ _ => True)).
+    { intros m0 w2 H. eapply post_weaken; [exact H | | auto]. intros a w' Hg. right. auto. }
+    apply post_bind. apply post_any; auto. intros okw w2. destruct okw.
+    + apply post_bind, post_syscall; auto.
+      intros k2 fs2 r2 El2 _. destruct (is_ok r2).
+      * apply post_bind, post_syscall; auto.
+        intros k3 fs3 r3 El3 _. destruct (is_ok r3).
+        -- apply post_bind, post_syscall; auto.
+           intros k4 fs4 r4 El4 _.
+           apply post_bind, post_syscall; auto.
+           intros k5 fs5 r5 El5 Heff5. simpl in Heff5.
+           destruct Heff5 as [[Hr5 ->] | [f [Hf [-> [[E _] | [_ ->]]]]]].
+           ++ rewrite Hr5. apply Hgo, remove_temp_gone.
+           ++ contradiction.
+           ++ simpl is_ok. cbv iota. apply post_ret. right. split; auto. left. cbn [w_fs]. apply upd_same.
+        -- apply Hgo, remove_temp_gone.
+      * apply Hgo, close_remove_temp_gone.
+    + apply Hgo, close_remove_temp_gone.
+Qed.
+
+Section FormatterClean.
+  Variable fmt1 : bytes -> option bytes.
+  Variable parts : bytes -> list bytes.
+  Variable join : bytes -> list bytes -> bytes.
+
+  Lemma fmt_file_clean target tmp w :
+    post (fmt_file fmt1 parts join Current CmdWrite target tmp) w
+         (fun _ w' => w_fs w' = w_fs w \/ (files (w_fs w) tmp = None /\ tmp_gone tmp w'))
+         (fun _ _ => True).
+  Proof.
+    unfold fmt_file. apply post_bind. eapply post_weaken; [apply read_file_post | | auto].
+    intros r w1 [H1 _]. destruct r as [src|]; [|apply post_ret; auto].
+    destruct (fmt_all fmt1 parts join src) as [out|]; [|apply post_ret; auto].
+    simpl. eapply post_weaken; [apply write_atomically_clean | | auto].
+    intros b w2 H. rewrite H1 in H. exact H.
+  Qed.
+
+  (* T6: a run of the protocol in force that exits (is not killed) leaves nothing at the temp
+     path that was not there before, unless the clean-up unlink failed *)
+  Lemma fmt_w_no_temp_left target tmp fs sched kill n :
+    let r := run fmt1 parts join Current CmdWrite target tmp fs sched kill in
+    r_status r = Exit n ->
+    files (r_fs r) tmp = files fs tmp \/ exists e, In (CUnlink tmp, RErr e) (r_trace r).
+  Proof.
+    cbv zeta. unfold run.
+    pose proof (fmt_file_clean target tmp {| w_fs := fs; w_sched := sched; w_left := kill; w_trace := [] |}) as Hc.
+    pose proof (fmt_file_post fmt1 parts join Current CmdWrite target tmp
+                  {| w_fs := fs; w_sched := sched; w_left := kill; w_trace := [] |}) as Hp.
+    unfold post in Hc, Hp.
+    destruct (fmt_file fmt1 parts join Current CmdWrite target tmp
+                {| w_fs := fs; w_sched := sched; w_left := kill; w_trace := [] |}) as [b w'|s w'].
+    - cbn [w_fs] in Hc. intros _.
+      assert (Hgoal : files (w_fs w') tmp = files fs tmp \/ exists e, In (CUnlink tmp, RErr e) (rev (w_trace w'))).
+      { destruct Hc as [-> | [H0 [Hg | [e He]]]]; auto.
+        - left. now rewrite Hg, H0.
+        - right. exists e. now apply in_rev in He. }
+      destruct b; exact Hgoal.
+    - destruct Hp as [-> _]. simpl. discriminate.
+  Qed.
+End FormatterClean.
